@@ -728,3 +728,13 @@ pub open spec fn eof_step1(a: AbsTok) -> Option<AbsTok> {
 pub open spec fn eof1(a: AbsTok) -> AbsTok { match eof_step1(a) { Some(b) => b, None => a } }
 /// everything that happens at end of input (no EOF chain is longer than three steps)
 pub open spec fn eof_close(a: AbsTok) -> AbsTok { emit(eof1(eof1(eof1(eof1(a)))), OutTok::Eof) }
+
+// ---- flushing the result of a character reference into the return state ----
+pub open spec fn flush1(a: AbsTok, c: char) -> AbsTok { if a.state is AttributeValue { push_value(a, c) } else { emit_c(a, c) } }
+pub open spec fn flush_chars(a: AbsTok, cs: Seq<char>, n: int) -> AbsTok {
+    if n <= 0 { a } else if n == 1 { flush1(a, cs[0]) } else { flush1(flush1(a, cs[0]), cs[1]) }
+}
+/// zero characters means "not a character reference": the ampersand itself is flushed
+pub open spec fn flush_char_ref(a: AbsTok, cs: Seq<char>, num: int) -> AbsTok {
+    if num == 0 { flush1(a, '&') } else { flush_chars(a, cs, num) }
+}
